@@ -171,7 +171,7 @@ func corruptLines(lines []Line, what string) {
 // the same binary (vvalreg --child), which watches its own heap and is killed by the parent.
 
 const (
-	childHeapLimit = 3 << 29 // 1.5 GiB
+	childHeapLimit = 3 << 28 // 768 MiB
 	childDeadline  = 25 * time.Second
 )
 
